@@ -136,6 +136,7 @@ impl PartialEq for Value_ {
     fn eq(&self, other: &Self) -> bool {
         match (self, other) {
             (Value_::Int(i1), Value_::Int(i2)) => i1 == i2,
+            (Value_::Float(f1), Value_::Float(f2)) => f1 == f2,
             (
                 Value_::Fun { name_sym, .. },
                 Value_::Fun {
@@ -154,6 +155,20 @@ impl PartialEq for Value_ {
                 Value_::BuiltInFunction(other_kind, _, _),
             ) => self_kind == other_kind,
             (Value_::String(s1), Value_::String(s2)) => s1 == s2,
+            (
+                Value_::Dict {
+                    items: self_items,
+                    value_type: _,
+                },
+                Value_::Dict {
+                    items: other_items,
+                    value_type: _,
+                },
+            ) => {
+                // As with lists, we don't consider the value type
+                // when comparing dicts.
+                self_items == other_items
+            }
             (
                 Value_::List {
                     items: self_items,
